@@ -17,6 +17,18 @@ Definition pair_holds_b (e : expectation) (hash_eq : bool) : bool :=
 Inductive case :=
 | CasePair (a b : gv) (e : expectation) (hash_eq : bool).
 
+(* monomorphic list builders: the generated case files contain no implicit arguments to infer *)
+Definition vnil : list gv := nil.
+Definition vcons (x : gv) (t : list gv) : list gv := x :: t.
+Definition mnil : list (gv * gv) := nil.
+Definition mcons (k v : gv) (t : list (gv * gv)) : list (gv * gv) := (k, v) :: t.
+Definition fnil : list (string * gv) := nil.
+Definition fcons (n : string) (v : gv) (t : list (string * gv)) : list (string * gv) := (n, v) :: t.
+Definition snil : list string := nil.
+Definition scons (x : string) (t : list string) : list string := x :: t.
+Definition lnil : list (string * string) := nil.
+Definition lcons (k v : string) (t : list (string * string)) : list (string * string) := (k, v) :: t.
+
 Definition tag (ok : bool) (t : string) : list string := if ok then [] else [t].
 
 Definition check_case (c : case) : list string :=
